@@ -17,6 +17,7 @@ func init() {
 	reg("SIG-1", ruleSig1)
 	reg("SETORD-1", ruleSetOrd)
 	reg("IDENT-1", ruleIdent1)
+	reg("IDENT-2", ruleIdent2)
 }
 
 // IDENT-1: per kind, equality, map-key identity and rendering must induce the same identity.
@@ -59,66 +60,6 @@ func ruleIdent1(c *Ctx) {
 		}
 		if s, p := arm(r.sp, r.fn, "KBool"); s != "" {
 			c.R.Check(strings.Contains(s, "Sel:FormatBool"), r.sp+"."+r.fn, "bool rendered by FormatBool", p, "true/false", "bools are not rendered by FormatBool")
-		}
-	}
-	// num: the text used for rendering and keying is injective on float64 (shortest round-trip form) and on int64
-	{
-		singleReturnCall := func(sp, fn string) (*ast.FuncDecl, *ast.CallExpr, types.Object) {
-			fd := c.FuncDecl(sp, fn)
-			if fd == nil {
-				c.R.Anchor(sp + "." + fn)
-				return nil, nil, nil
-			}
-			var param types.Object
-			if fd.Type.Params != nil && len(fd.Type.Params.List) == 1 && len(fd.Type.Params.List[0].Names) == 1 {
-				param = c.objOf(fd.Type.Params.List[0].Names[0])
-			}
-			if len(fd.Body.List) == 1 {
-				if r, ok := fd.Body.List[0].(*ast.ReturnStmt); ok && len(r.Results) == 1 {
-					if ce, ok := unparen(r.Results[0]).(*ast.CallExpr); ok {
-						return fd, ce, param
-					}
-				}
-			}
-			return fd, nil, param
-		}
-		constInt := func(e ast.Expr) (int64, bool) {
-			v := c.constOf(e)
-			if v == nil {
-				return 0, false
-			}
-			if i, ok := constant.Int64Val(constant.ToInt(v)); ok {
-				return i, true
-			}
-			return 0, false
-		}
-		if fd, ce, param := singleReturnCall("util", "FmtFloat"); fd != nil {
-			ok := false
-			if ce != nil && c.calleeName(ce) == "strconv.FormatFloat" && len(ce.Args) == 4 && param != nil {
-				id, isID := unparen(ce.Args[0]).(*ast.Ident)
-				prec, okP := constInt(ce.Args[2])
-				bits, okB := constInt(ce.Args[3])
-				f, okF := constInt(ce.Args[1])
-				ok = isID && c.objOf(id) == param && okP && prec == -1 && okB && bits == 64 && okF && strings.ContainsRune("feEgG", rune(f))
-			}
-			c.R.Check(ok, "util.FmtFloat", "float text is the shortest round-trip form of the value itself", fd.Pos(), "strconv.FormatFloat(n, fmt, -1, 64): distinct float64 values give distinct text, so non-integral numbers never render alike or collide as map keys", "non-integral numbers are not rendered by strconv.FormatFloat(n, fmt, -1, 64) of the value itself (rounded, truncated or pre-processed): distinct numbers can render alike and collide as map keys, and host maps with float keys lose entries")
-		}
-		if fd, ce, param := singleReturnCall("util", "FmtInt"); fd != nil {
-			ok := false
-			if ce != nil && c.calleeName(ce) == "strconv.FormatInt" && len(ce.Args) == 2 && param != nil {
-				id, isID := unparen(ce.Args[0]).(*ast.Ident)
-				base, okB := constInt(ce.Args[1])
-				ok = isID && c.objOf(id) == param && okB && base >= 2 && base <= 36
-			}
-			c.R.Check(ok, "util.FmtInt", "integer text is the exact positional form of the value itself", fd.Pos(), "strconv.FormatInt(n, base): injective", "integral numbers are not rendered by strconv.FormatInt of the value itself")
-		}
-		for _, r := range renderers {
-			s, p := arm(r.sp, r.fn, "KNum")
-			if s == "" {
-				continue
-			}
-			okNum := strings.Contains(s, "(SelectorExpr util Sel:FmtFloat)") && strings.Contains(s, "(SelectorExpr util Sel:FmtInt)")
-			c.R.Check(okNum, r.sp+"."+r.fn, "num rendered through util.FmtInt / util.FmtFloat", p, "the two injective formatters", "numbers are rendered/keyed by something other than util.FmtInt / util.FmtFloat")
 		}
 	}
 	// time
@@ -191,6 +132,27 @@ func ruleSetOrd(c *Ctx) {
 		}
 		c.R.Check(ok, "fun."+h.fn, "result follows the first operand's order", fd.Pos(), "ranges over x.link (then y.link for union); operands not reassigned", "the result is not built in the first operand's insertion order (operands swapped/reassigned or another iteration order): "+h.fn+"([3,2,1],[1,2]) changes element order")
 	}
+	// call sites: the built-in hands its first argument's set to the helper first, its second argument's set second
+	sites := 0
+	for _, b := range c.builtins("fun") {
+		defs := c.localDefs(b.lit.Body)
+		var pname string
+		if b.lit.Type.Params != nil && len(b.lit.Type.Params.List) == 1 && len(b.lit.Type.Params.List[0].Names) == 1 {
+			pname = b.lit.Type.Params.List[0].Names[0].Name
+		}
+		for _, call := range c.callsTo(b.lit.Body, "fun.union", "fun.intersect", "fun.diff") {
+			if len(call.Args) != 2 || pname == "" {
+				continue
+			}
+			sites++
+			uses := func(e ast.Expr, k string) bool {
+				return strings.Contains(c.sxInl(e, defs), "(IndexExpr "+pname+" Index:"+k+")")
+			}
+			ok := uses(call.Args[0], "0") && !uses(call.Args[0], "1") && uses(call.Args[1], "1") && !uses(call.Args[1], "0")
+			c.R.Check(ok, "fun."+b.name+"$init", "operands reach "+c.calleeName(call)+" in argument order", call.Pos(), "helper(set of args[0], set of args[1])", "the set helper is not called with (set of the first argument, set of the second argument): the result follows the wrong operand's order (intersect([3,2,1],[1,2,3]) must be [3,2,1]) or, for diff, the operands' roles are exchanged")
+		}
+	}
+	c.R.Check(sites >= 3, "fun", "set built-ins call the set helpers", token.NoPos, "union, intersect, diff", "fewer than three call sites of the set helpers found in the built-ins")
 	if fd := c.FuncDecl("fun", "valSetOf"); fd != nil {
 		// range over the list; key := v.String(); if _, seen := m[key]; !seen { m[key] = v; l = append(l, key) }
 		ok := c.hasNode(fd, fd.Body, "(RangeStmt Key:_ Value:$0 Tok::= $p0 Body:(BlockStmt [(AssignStmt Lhs:[$1] Tok::= Rhs:[(CallExpr Fun:(SelectorExpr $0 Sel:String))]) (IfStmt Init:(AssignStmt Lhs:[_ $2] Tok::= Rhs:[(IndexExpr $3 Index:$1)]) Cond:(UnaryExpr Op:! $2) Body:(BlockStmt [(AssignStmt Lhs:[(IndexExpr $3 Index:$1)] Tok:= Rhs:[$0]) (AssignStmt Lhs:[$4] Tok:= Rhs:[(CallExpr Fun:append Args:[$4 $1])])]))]))", false)
@@ -789,6 +751,96 @@ func ruleSig1(c *Ctx) {
 			if strings.Contains(t, "maybe(") {
 				c.R.Check(b.name == "GET_MAYBE" && i == 0, "fun."+b.name+"$init", fmt.Sprintf("parameter %d of optional type", i), e.Pos(), "get(maybe[a], a) is the sole eliminator", "a built-in other than get accepts an optional where... it declares maybe[..] as parameter: optionals must only be consumed through get with a default")
 			}
+		}
+	}
+}
+
+// IDENT-2: number text is injective (own rule id: it also serves C15's map-key faithfulness and C04's string conversion,
+// which the time clause of IDENT-1 does not).
+func ruleIdent2(c *Ctx) {
+	c.R.Rule("IDENT-2", 4, "the text by which numbers are rendered and keyed is injective: util.FmtFloat is strconv.FormatFloat(n, fmt, -1, 64) of the value itself (shortest form that round-trips), util.FmtInt is strconv.FormatInt(n, base), and Key / stringify / string() render numbers through exactly these two")
+	arm := func(sp, fn, kind string) (string, token.Pos) {
+		fd := c.FuncDecl(sp, fn)
+		if fd == nil {
+			c.R.Anchor(sp + "." + fn)
+			return "", token.NoPos
+		}
+		var sw *ast.SwitchStmt
+		inspectNoLit(fd.Body, func(x ast.Node) bool {
+			if s, ok := x.(*ast.SwitchStmt); ok && sw == nil && s.Tag != nil && strings.HasSuffix(src(s.Tag), "Kind") {
+				sw = s
+			}
+			return true
+		})
+		if sw == nil {
+			return "", fd.Pos()
+		}
+		cc := c.switchCasesByConst(sw)["types."+kind]
+		if cc == nil {
+			return "", sw.Pos()
+		}
+		return sx(cc.Body), cc.Pos()
+	}
+	type site struct{ sp, fn string }
+	renderers := []site{{"val", "Val.Key"}, {"val", "stringify"}, {"fun", "stringify0"}}
+	// num: the text used for rendering and keying is injective on float64 (shortest round-trip form) and on int64
+	{
+		singleReturnCall := func(sp, fn string) (*ast.FuncDecl, *ast.CallExpr, types.Object) {
+			fd := c.FuncDecl(sp, fn)
+			if fd == nil {
+				c.R.Anchor(sp + "." + fn)
+				return nil, nil, nil
+			}
+			var param types.Object
+			if fd.Type.Params != nil && len(fd.Type.Params.List) == 1 && len(fd.Type.Params.List[0].Names) == 1 {
+				param = c.objOf(fd.Type.Params.List[0].Names[0])
+			}
+			if len(fd.Body.List) == 1 {
+				if r, ok := fd.Body.List[0].(*ast.ReturnStmt); ok && len(r.Results) == 1 {
+					if ce, ok := unparen(r.Results[0]).(*ast.CallExpr); ok {
+						return fd, ce, param
+					}
+				}
+			}
+			return fd, nil, param
+		}
+		constInt := func(e ast.Expr) (int64, bool) {
+			v := c.constOf(e)
+			if v == nil {
+				return 0, false
+			}
+			if i, ok := constant.Int64Val(constant.ToInt(v)); ok {
+				return i, true
+			}
+			return 0, false
+		}
+		if fd, ce, param := singleReturnCall("util", "FmtFloat"); fd != nil {
+			ok := false
+			if ce != nil && c.calleeName(ce) == "strconv.FormatFloat" && len(ce.Args) == 4 && param != nil {
+				id, isID := unparen(ce.Args[0]).(*ast.Ident)
+				prec, okP := constInt(ce.Args[2])
+				bits, okB := constInt(ce.Args[3])
+				f, okF := constInt(ce.Args[1])
+				ok = isID && c.objOf(id) == param && okP && prec == -1 && okB && bits == 64 && okF && strings.ContainsRune("feEgG", rune(f))
+			}
+			c.R.Check(ok, "util.FmtFloat", "float text is the shortest round-trip form of the value itself", fd.Pos(), "strconv.FormatFloat(n, fmt, -1, 64): distinct float64 values give distinct text, so non-integral numbers never render alike or collide as map keys", "non-integral numbers are not rendered by strconv.FormatFloat(n, fmt, -1, 64) of the value itself (rounded, truncated or pre-processed): distinct numbers can render alike and collide as map keys, and host maps with float keys lose entries")
+		}
+		if fd, ce, param := singleReturnCall("util", "FmtInt"); fd != nil {
+			ok := false
+			if ce != nil && c.calleeName(ce) == "strconv.FormatInt" && len(ce.Args) == 2 && param != nil {
+				id, isID := unparen(ce.Args[0]).(*ast.Ident)
+				base, okB := constInt(ce.Args[1])
+				ok = isID && c.objOf(id) == param && okB && base >= 2 && base <= 36
+			}
+			c.R.Check(ok, "util.FmtInt", "integer text is the exact positional form of the value itself", fd.Pos(), "strconv.FormatInt(n, base): injective", "integral numbers are not rendered by strconv.FormatInt of the value itself")
+		}
+		for _, r := range renderers {
+			s, p := arm(r.sp, r.fn, "KNum")
+			if s == "" {
+				continue
+			}
+			okNum := strings.Contains(s, "(SelectorExpr util Sel:FmtFloat)") && strings.Contains(s, "(SelectorExpr util Sel:FmtInt)")
+			c.R.Check(okNum, r.sp+"."+r.fn, "num rendered through util.FmtInt / util.FmtFloat", p, "the two injective formatters", "numbers are rendered/keyed by something other than util.FmtInt / util.FmtFloat")
 		}
 	}
 }
